@@ -219,11 +219,16 @@ C08_Register(pre, E, post) ==
          \cup Tag(HasUser(post.gk, E.who) /\ UserOf(post.gk, E.who) =
                     [u |-> E.who, slots |-> E.reply.slots, start |-> E.reply.start, expiry |-> E.reply.expiry], "C08", "not_held")
 
-C08_Add(pre, E, post) ==
+C08_Add(pre, E, post, g) ==
     IF E.reply.code # "ok" THEN {}
     ELSE LET k == <<E.who, E.a.l>>
              inCache == IdxHas(pre.wCache, E.a.l)
+             p == Decrypt(E.a.blob, E.a.l)
          IN Tag(E.reply.sig_ok, "C08", "signature")
+            \* a receipt for an appointment whose dispute was already confirmed: dropped only because the blob does not decrypt
+            \* or the node refused the penalty; otherwise it is held (with its tracker, or alone when the node said "on chain")
+            \cup Tag((inCache /\ p # NoTx /\ Known(pre, E, p, g) /\ ~Refused(pre, E, p, g)) => HasKey(post.appts, k),
+                     "C08", "receipt_for_dropped")
             \cup Tag(E.reply.start = pre.wH, "C08", "start_block")
             \cup Tag(E.reply.ver = E.a.ver, "C08", "user_signature")
             \cup Tag(E.reply.expiry = UserOf(post.users, E.who).expiry, "C08", "expiry")
